@@ -249,6 +249,37 @@ def rich_random(G, ctx, rng):
         return
 
 
+def python_scalar_arguments(G, ctx):
+    """arguments given as Python floats / ints are WEAKLY typed in JAX: combined with narrower arrays (float16, bfloat16, int8, uint8)
+    the result keeps the narrow dtype.  estimate / jvp_estimate must agree with the plain call / jax.jvp in dtype and value."""
+    import jax
+    import jax.numpy as jnp
+    A = __import__("genjax.adev", fromlist=["x"])
+    h = jnp.arange(6, dtype=jnp.float16).reshape(3, 2) * 0.5
+    u8 = jnp.arange(7, dtype=jnp.uint8) * 30
+    fams = [
+        ("python-float * float16 array", lambda x: jnp.sum(x * h), 300.0),
+        ("python-int * uint8 array", lambda n: jnp.sum(n * u8), 3),
+        ("python-float + bfloat16 array", lambda x: jnp.sum(jnp.asarray([1.5, 2.25], jnp.bfloat16) + x), 0.1),
+        ("pytree with python int and int8 array", lambda d: jnp.sum(d["k"] * d["a"]), {"k": 100, "a": jnp.array([3, -2], jnp.int8)}),
+        ("python-float * float32 array (control)", lambda x: jnp.sum(x * jnp.arange(3.0)), 2.5),
+    ]
+    for name, f, arg in fams:
+        case = {"kind": "python-scalar-argument", "program": name}
+        try:
+            want = f(arg)
+            got = A.expectation(f).estimate(arg)
+            w, g = np.asarray(want), np.asarray(got)
+            if w.dtype != g.dtype or not np.array_equal(w.astype(np.float64), g.astype(np.float64), equal_nan=True):
+                ctx.property_failure(None, f"{name}: estimate gives {g.tolist()} ({g.dtype}), the function itself {w.tolist()} ({w.dtype}) - a Python scalar argument was not kept weakly typed",
+                                     {**case, "estimate": [str(g.dtype), g.tolist()], "plain": [str(w.dtype), w.tolist()]})
+        except Exception as ex:
+            impl.reset_handlers()
+            ctx.property_failure(None, f"{name} raised {type(ex).__name__}: {str(ex)[:160]}", case)
+        ctx.case(sample=case if "uint8" in name else None, nontrivial_key=("python-scalar", name))
+        ctx.count("python-scalar-argument")
+
+
 def interpreter_limits(G, ctx):
     """Deterministic programs that jax.jvp differentiates but the ADEV interpreter does not handle (open findings of C15, each a loud
     exception; found while extending the model to multi-output equations / cond / loops).  A listed finding is recognised only by its
@@ -298,6 +329,7 @@ def run(ctx, audit):
     G = impl.load()
     rng = ctx.rng
     interpreter_limits(G, ctx)
+    python_scalar_arguments(G, ctx)
     for name, f, shapes in corpus():
         for rep in range(3 if ctx.thorough else 1):
             check_one(G, ctx, name, f, shapes, rng)
